@@ -82,5 +82,6 @@ namespace c04
     C04_DECL(avx512vnni_vbmi2)
     C04_DECL(emulated128)
     C04_DECL(emulated256)
+    C04_DECL(emulated512)
 #undef C04_DECL
 }
